@@ -21,6 +21,9 @@ use tower::{Layer, Service};
 pub struct C19;
 
 const PERIOD_MS: u64 = 40;
+/// ops 0..ALPHABET are the alphabet of the sequence enumeration; the rest only occur in the
+/// simultaneous-arrival units
+const ALPHABET: usize = 6;
 
 #[derive(Clone, Copy, Debug, PartialEq)]
 enum Op {
@@ -31,6 +34,8 @@ enum Op {
     SleepTwo,
     /// sleep until just (3 ms) before one period has elapsed
     SleepAlmostOne,
+    /// a request of peer P/Q/R issued as its own task, not awaited before the next op
+    Spawn(u8),
 }
 
 fn op_json(o: &Op) -> Value {
@@ -41,10 +46,11 @@ fn op_json(o: &Op) -> Value {
         Op::SleepHalf => json!("sleep(T/2)"),
         Op::SleepTwo => json!("sleep(2T)"),
         Op::SleepAlmostOne => json!("sleep(T-3ms)"),
+        Op::Spawn(p) => json!(format!("spawn({})", ["P", "Q", "R"][*p as usize])),
     }
 }
 
-const OPS: [Op; 6] = [Op::Req(0), Op::Req(1), Op::Flood, Op::SleepHalf, Op::SleepTwo, Op::SleepAlmostOne];
+const OPS: [Op; 9] = [Op::Req(0), Op::Req(1), Op::Flood, Op::SleepHalf, Op::SleepTwo, Op::SleepAlmostOne, Op::Spawn(0), Op::Spawn(1), Op::Spawn(2)];
 
 #[derive(Clone)]
 struct Inner {
@@ -90,7 +96,7 @@ impl Drop for PointGuard {
 
 /// `stall`: (index into POINTS, k) = stall the k-th arrival at that point. Returns the shape and
 /// how often each point was reached.
-fn run_sequence(burst: u32, block: bool, seq: &[Op], stall: Option<(usize, usize)>) -> Result<(String, [usize; 2]), (String, String)> {
+fn run_sequence(burst: u32, period_ms: u64, block: bool, seq: &[Op], stall: Option<(usize, usize)>) -> Result<(String, [usize; 2]), (String, String)> {
     let hits = Arc::new(Mutex::new([0usize; 2]));
     let hits2 = hits.clone();
     anemo::verif::set_named_point_hook(Some(Arc::new(move |tag: &'static str| {
@@ -101,12 +107,12 @@ fn run_sequence(burst: u32, block: bool, seq: &[Op], stall: Option<(usize, usize
             h[t] - 1
         };
         if stall == Some((t, k)) {
-            std::thread::sleep(Duration::from_millis(PERIOD_MS + 5));
+            std::thread::sleep(Duration::from_millis(period_ms + 5));
         }
     })));
     let _guard = PointGuard;
     let rt = tokio::runtime::Builder::new_current_thread().enable_all().build().unwrap();
-    let period = Duration::from_millis(PERIOD_MS);
+    let period = Duration::from_millis(period_ms);
     let quota = governor::Quota::with_period(period).unwrap().allow_burst(std::num::NonZeroU32::new(burst).unwrap());
     let admitted = Arc::new(Mutex::new(vec![]));
     let layer = RateLimitLayer::new(quota, if block { WaitMode::Block } else { WaitMode::ReturnError });
@@ -117,7 +123,7 @@ fn run_sequence(burst: u32, block: bool, seq: &[Op], stall: Option<(usize, usize
     rt.block_on(async {
         let mut next_id = 0usize;
         // conservative lower bound of tokens available to each peer
-        let mut low = [burst as i64, burst as i64];
+        let mut low = [burst as i64; 3];
         let mut handles = vec![];
         for op in seq {
             match *op {
@@ -131,6 +137,20 @@ fn run_sequence(burst: u32, block: bool, seq: &[Op], stall: Option<(usize, usize
                     let called = Instant::now();
                     let r = s.call(req).await;
                     outcomes.lock().unwrap().push(Outcome { peer: p, id, called, returned: Instant::now(), result: r.map(|_| ()).map_err(|e| Some((e.status(), e.headers().get(WAIT_NANOS_HEADER).cloned()))), must_admit: must });
+                }
+                Op::Spawn(p) => {
+                    let id = next_id;
+                    next_id += 1;
+                    let must = low[p as usize] >= 1;
+                    low[p as usize] = (low[p as usize] - 1).max(0);
+                    let mut s = if id % 2 == 0 { svc.clone() } else { svc2.clone() };
+                    let outcomes = outcomes.clone();
+                    handles.push(tokio::spawn(async move {
+                        let req = Request::new(Bytes::new()).with_header("id", id.to_string()).with_extension(PeerId([p; 32]));
+                        let called = Instant::now();
+                        let r = s.call(req).await;
+                        outcomes.lock().unwrap().push(Outcome { peer: p, id, called, returned: Instant::now(), result: r.map(|_| ()).map_err(|e| Some((e.status(), e.headers().get(WAIT_NANOS_HEADER).cloned()))), must_admit: must });
+                    }));
                 }
                 Op::Flood => {
                     for _ in 0..(burst + 2) {
@@ -181,17 +201,17 @@ fn run_sequence(burst: u32, block: bool, seq: &[Op], stall: Option<(usize, usize
     let outcomes = outcomes.lock().unwrap();
     let adm = admitted.lock().unwrap().clone();
     let ctx = format!(
-        "[burst {burst}, period {PERIOD_MS} ms, {}{}] sequence {:?}",
+        "[burst {burst}, period {period_ms} ms, {}{}] sequence {:?}",
         if block { "Block" } else { "ReturnError" },
         match stall {
-            Some((t, k)) => format!(", handler stalled {} ms at arrival #{k} at {}", PERIOD_MS + 5, POINTS[t]),
+            Some((t, k)) => format!(", handler stalled {} ms at arrival #{k} at {}", period_ms + 5, POINTS[t]),
             None => String::new(),
         },
         seq.iter().map(op_json).collect::<Vec<_>>()
     );
     // 1. the quota: for every pair of admissions i <= j of one peer,
     //    #admitted(i..=j) <= burst + floor((admit_j - call_i) / period)
-    for p in 0..2u8 {
+    for p in 0..3u8 {
         let mut mine: Vec<(Instant, Instant)> = adm
             .iter()
             .filter(|a| a.0 == p)
@@ -252,7 +272,7 @@ fn run_sequence(burst: u32, block: bool, seq: &[Op], stall: Option<(usize, usize
     }
     if block {
         // everything is admitted in the end
-        let issued: usize = seq.iter().map(|o| match o { Op::Req(_) => 1, Op::Flood => burst as usize + 2, _ => 0 }).sum();
+        let issued: usize = seq.iter().map(|o| match o { Op::Req(_) | Op::Spawn(_) => 1, Op::Flood => burst as usize + 2, _ => 0 }).sum();
         if outcomes.len() != issued {
             return Err(("block-mode-stuck".into(), format!("{ctx}: {} of {issued} requests completed within 5 s of the end of the sequence", outcomes.len())));
         }
@@ -266,7 +286,7 @@ impl Check for C19 {
         CheckMeta {
             property: "C19",
             level: "exploration",
-            rule: "every operation sequence over {req(P), req(Q), flood = burst+2 concurrent req(P), sleep(T/2), sleep(2T), sleep(T-3ms)} up to length 4 (quick) / 5 (thorough) x quota (burst 1 or 3, period 40 ms) x {Block, ReturnError}, through two service instances of one layer, executed in REAL time (timing sampled once per sequence), plus one deviation for ReturnError sequences up to length depth-1 / depth-2: the handler is stalled for more than a period at each arrival in turn at the hooked points after / before the limiter check (H8); oracle: for every pair of one peer's admissions the count is <= burst + floor(window/period) with the window over-approximated from call/admit brackets; refusals carry wait-nanos > 0 and never reach the service; requests within quota under every timing must be admitted; Block never refuses; distinct = distinct admit/refuse shapes".into(),
+            rule: "every operation sequence over {req(P), req(Q), flood = burst+2 concurrent req(P), sleep(T/2), sleep(2T), sleep(T-3ms)} up to length 4 (quick) / 5 (thorough) x quota (burst 1 or 3, period 40 ms) x {Block, ReturnError}, plus every arrival order of 2-5 requests of each of 2-3 peers all in flight at once on a fresh limiter (simultaneous arrivals; ReturnError orders also with a stall at each refusal), through two service instances of one layer, executed in REAL time (timing sampled once per sequence), plus one deviation for ReturnError sequences up to length depth-1 / depth-2: the handler is stalled for more than a period at each arrival in turn at the hooked points after / before the limiter check (H8); oracle: for every pair of one peer's admissions the count is <= burst + floor(window/period) with the window over-approximated from call/admit brackets; refusals carry wait-nanos > 0 and never reach the service; requests within quota under every timing must be admitted; Block never refuses; distinct = distinct admit/refuse shapes".into(),
             assumptions: vec![
                 "real time: governor's quanta clock and futures-timer are not interceptable; the oracle uses only inequalities that hold under arbitrary scheduling delay".into(),
                 "each sequence is executed once: interleavings of the concurrent flood are sampled, not enumerated".into(),
@@ -277,12 +297,29 @@ impl Check for C19 {
 
     fn units(&self, tier: Tier) -> Vec<Value> {
         let mut u = vec![];
-        for burst in [1u32, 3] {
+        let mut quotas = vec![(1u32, PERIOD_MS), (3, PERIOD_MS)];
+        if tier == Tier::Thorough {
+            quotas.push((2, 25));
+        }
+        for (burst, period) in quotas.iter().copied() {
             for block in [false, true] {
-                for a in 0..OPS.len() {
-                    for b in 0..OPS.len() {
-                        u.push(json!({"burst":burst,"block":block,"prefix":[a,b],"depth":tier.pick(4, 5)}));
+                for a in 0..ALPHABET {
+                    for b in 0..ALPHABET {
+                        u.push(json!({"kind":"sequences","burst":burst,"period":period,"block":block,"prefix":[a,b],"depth":tier.pick(4, 5)}));
                     }
+                }
+            }
+        }
+        // simultaneous arrivals: every arrival order of `per_peer` requests of each of `peers`
+        // peers, all in flight at once on a fresh limiter
+        let mut arr = vec![(1u32, 2usize, 3usize), (1, 3, 2), (3, 2, 4)];
+        if tier == Tier::Thorough {
+            arr.extend([(1, 2, 4), (2, 3, 3), (3, 2, 5), (1, 3, 3)]);
+        }
+        for (burst, peers, per_peer) in arr {
+            for block in [false, true] {
+                for first in 0..peers {
+                    u.push(json!({"kind":"arrivals","burst":burst,"period":PERIOD_MS,"block":block,"peers":peers,"per_peer":per_peer,"first":first}));
                 }
             }
         }
@@ -292,6 +329,64 @@ impl Check for C19 {
     fn run_unit(&self, _tier: Tier, unit: &Value, out: &mut UnitResult) {
         let burst = unit["burst"].as_u64().unwrap() as u32;
         let block = unit["block"].as_bool().unwrap();
+        let period = unit["period"].as_u64().unwrap();
+        if unit["kind"] == "arrivals" {
+            let peers = unit["peers"].as_u64().unwrap() as usize;
+            let per_peer = unit["per_peer"].as_u64().unwrap() as usize;
+            let first = unit["first"].as_u64().unwrap() as u8;
+            // all distinct orders of the multiset, starting with `first`
+            fn orders(left: &mut Vec<usize>, cur: &mut Vec<u8>, out: &mut Vec<Vec<u8>>) {
+                if left.iter().all(|l| *l == 0) {
+                    out.push(cur.clone());
+                    return;
+                }
+                for p in 0..left.len() {
+                    if left[p] > 0 {
+                        left[p] -= 1;
+                        cur.push(p as u8);
+                        orders(left, cur, out);
+                        cur.pop();
+                        left[p] += 1;
+                    }
+                }
+            }
+            let mut left = vec![per_peer; peers];
+            left[first as usize] -= 1;
+            let mut all = vec![];
+            orders(&mut left, &mut vec![first], &mut all);
+            for order in all {
+                let seq: Vec<Op> = order.iter().map(|p| Op::Spawn(*p)).collect();
+                let seq_idx = seq.iter().map(|o| OPS.iter().position(|x| x == o).unwrap()).collect::<Vec<_>>();
+                crate::pool::crumb(|| format!("rate limiter simultaneous arrivals {order:?}"));
+                out.evaluations += 1;
+                out.count("arrival_orders", 1);
+                let mut hits = [0usize; 2];
+                match run_sequence(burst, period, block, &seq, None) {
+                    Ok((shape, h)) => {
+                        hits = h;
+                        // in ReturnError mode on a fresh limiter the verdicts are determined:
+                        // the first `burst` arrivals of each peer pass (must_admit), the others
+                        // are refused unless the run took longer than a period
+                        out.class(format!("arrivals {} {}", if block { "block" } else { "error" }, shape.chars().filter(|c| *c == 'A').count()))
+                    }
+                    Err((k, m)) => out.violation(k, m, json!({"unit": {"burst":burst,"period":period,"block":block}, "sequence": seq_idx})),
+                }
+                if !block {
+                    for k in 0..hits[0] {
+                        out.evaluations += 1;
+                        out.count("stalled_executions", 1);
+                        match run_sequence(burst, period, block, &seq, Some((0, k))) {
+                            Ok(_) => out.class("arrivals error+stall"),
+                            Err((key, m)) => out.violation(key, m, json!({"unit": {"burst":burst,"period":period,"block":block}, "sequence": seq_idx, "stall": [0, k]})),
+                        }
+                    }
+                }
+                if out.samples.len() < 2 {
+                    out.sample(json!({"arrival_order": order, "burst": burst, "block": block}));
+                }
+            }
+            return;
+        }
         let depth = unit["depth"].as_u64().unwrap() as usize;
         let prefix: Vec<Op> = unit["prefix"].as_array().unwrap().iter().map(|i| OPS[i.as_u64().unwrap() as usize]).collect();
         let mut stack = vec![prefix];
@@ -302,12 +397,12 @@ impl Check for C19 {
                 out.evaluations += 1;
                 let seq_idx = seq.iter().map(|o| OPS.iter().position(|x| x == o).unwrap()).collect::<Vec<_>>();
                 let mut hits = [0usize; 2];
-                match run_sequence(burst, block, &seq, None) {
+                match run_sequence(burst, period, block, &seq, None) {
                     Ok((shape, h)) => {
                         hits = h;
                         out.class(format!("{} {}", if block { "block" } else { "error" }, shape.chars().take(8).collect::<String>()))
                     }
-                    Err((k, m)) => out.violation(k, m, json!({"unit": {"burst":burst,"block":block}, "sequence": seq_idx})),
+                    Err((k, m)) => out.violation(k, m, json!({"unit": {"burst":burst,"period":period,"block":block}, "sequence": seq_idx})),
                 }
                 // one deviation: the handler is stalled for more than a period at one arrival at
                 // one of the hooked points (every arrival in turn)
@@ -319,9 +414,9 @@ impl Check for C19 {
                         crate::pool::crumb(|| format!("rate limiter sequence {:?} stalled at {} #{k}", seq.iter().map(op_json).collect::<Vec<_>>(), POINTS[t]));
                         out.evaluations += 1;
                         out.count("stalled_executions", 1);
-                        match run_sequence(burst, block, &seq, Some((t, k))) {
+                        match run_sequence(burst, period, block, &seq, Some((t, k))) {
                             Ok((shape, _)) => out.class(format!("error+stall {}", shape.chars().take(8).collect::<String>())),
-                            Err((key, m)) => out.violation(key, m, json!({"unit": {"burst":burst,"block":block}, "sequence": seq_idx, "stall": [t, k]})),
+                            Err((key, m)) => out.violation(key, m, json!({"unit": {"burst":burst,"period":period,"block":block}, "sequence": seq_idx, "stall": [t, k]})),
                         }
                     }
                 }
@@ -330,7 +425,7 @@ impl Check for C19 {
                 }
             }
             if seq.len() < depth {
-                for o in OPS.iter().rev() {
+                for o in OPS[..ALPHABET].iter().rev() {
                     let mut n = seq.clone();
                     n.push(*o);
                     stack.push(n);
@@ -342,7 +437,7 @@ impl Check for C19 {
     fn replay(&self, replay: &Value) -> String {
         let seq: Vec<Op> = replay["sequence"].as_array().unwrap().iter().map(|i| OPS[i.as_u64().unwrap() as usize]).collect();
         let stall = replay.get("stall").and_then(|s| s.as_array()).map(|s| (s[0].as_u64().unwrap() as usize, s[1].as_u64().unwrap() as usize));
-        let r = run_sequence(replay["unit"]["burst"].as_u64().unwrap() as u32, replay["unit"]["block"].as_bool().unwrap(), &seq, stall);
+        let r = run_sequence(replay["unit"]["burst"].as_u64().unwrap() as u32, replay["unit"]["period"].as_u64().unwrap_or(PERIOD_MS), replay["unit"]["block"].as_bool().unwrap(), &seq, stall);
         format!("sequence {:?}\nresult {r:?}\n(real-time run: timing differs from the recorded one)", seq.iter().map(op_json).collect::<Vec<_>>())
     }
 
